@@ -4,6 +4,8 @@ import Wx.Job.C06
 import Wx.Job.C08t
 import Wx.Job.C08m
 import Wx.Cli.SignalPrioThm
+import Wx.Cli.Action
+import Wx.Reg.Thm
 /-! # C08 — Quit always terminates and leaves no supervised process behind
 
 > After the action handler requests a quit the main task finishes within a bounded time whatever the jobs are doing:
@@ -82,5 +84,28 @@ theorem ended_task_stays_ended (x : Sim) (h : x.st.alive = false) (ops : List Op
     turn they are received (`Sp.Th.turn_urgent`), so the handler's quit decision (`Ca.onSignals`) is not held up by the window -/
 theorem interrupt_and_terminate_travel_urgent :
     Wp.signalPriority "Interrupt" = "Urgent" ∧ Wp.signalPriority "Terminate" = "Urgent" := Wp.interrupt_and_terminate_are_urgent
+
+/-- **which jobs the quit reaches** (`action/worker.rs` registry, `action/handler.rs`, `id.rs`; model `Rg`): for every script of
+    actions — jobs created on any OS threads, ids minted on any threads, get-or-create asked for any held id any number of times in
+    the same or in later actions, jobs deleted in between — every job ever started is in the worker's registry or has ended, so
+    the graceful quit stops every live one (`leaked = []`) and the main task joins no task the quit did not stop (`hung = []`) -/
+theorem quit_reaches_every_job (script : List (List Rg.Op × List Nat)) :
+    Rg.leaked (Rg.run (Rg.init { f19 := true }) script) = [] ∧ Rg.hung (Rg.run (Rg.init { f19 := true }) script) = [] :=
+  Rg.no_job_outside_the_registry script
+
+/-- … which the code before the repair F19 did not do: the same new id asked for twice within one action started two jobs, the
+    first of which was never registered -/
+theorem quit_missed_a_job_before_F19 : Rg.leaked (Rg.run (Rg.init { f19 := false }) [([.mint 0, .goc 0, .goc 0], [])]) = [0] :=
+  Rg.get_or_create_twice_leaks_today
+
+/-- **`--map-signal`**: an interrupt or terminate the user mapped does not quit — the command gets what it was mapped to, or nothing;
+    one that is not mapped quits whatever else is mapped (`first_interrupt_quits_gracefully` has exactly that premise) -/
+theorem mapped_interrupt_is_for_the_command (cfg : Ca.Cfg) (n : Nat) (sigs : List Jm.Sig)
+    (ht : Ca.term ∈ sigs → (Ca.mapped cfg Ca.term).isSome) (hi : Ca.sigInt ∈ sigs → (Ca.mapped cfg Ca.sigInt).isSome) :
+    Ca.onSignals cfg n sigs = .pass (Ca.translate cfg sigs) := Ca.mapped_interrupt_does_not_quit cfg n sigs ht hi
+
+theorem unmapped_interrupt_quits_gracefully (cfg : Ca.Cfg) (sigs : List Jm.Sig)
+    (h : (Ca.term ∈ sigs ∧ Ca.mapped cfg Ca.term = none) ∨ (Ca.sigInt ∈ sigs ∧ Ca.mapped cfg Ca.sigInt = none)) :
+    Ca.onSignals cfg 0 sigs = .quit (.graceful (cfg.stopSignal.getD Ca.term) cfg.stopTimeout) := Ca.first_interrupt_quits_gracefully cfg sigs h
 
 end Props.C08
